@@ -391,3 +391,53 @@ def reassigned_generators(tier, rng, rep):
 
 def free_automaton_ab():
     return fsa.free_automaton(["a", "b"])
+
+
+@bounded(P, "relabelled_automata", functions=F_ALL + ["geometry_tools/automata/fsa.py:FSA.rename_generators"],
+         note="automata relabelled before the enumeration - in place (the default) and not - by maps that permute the alphabet (a <-> b, a <-> A, cyclic shifts) or rename to fresh letters: "
+              "the returned words are exactly the words of the relabelled model, each accepted by the automaton itself, and agree with its own enumeration")
+def relabelled_automata(tier, rng, rep):
+    N = 150 if tier == 'thorough' else 40
+    rep.rule = f"free automaton on a, b and {N} random automata on 2..4 states over {{a, b, A}}; relabellings: swap a/b, swap a/A, cycle a->b->A->a, fresh letters; in place and as a copy; check_enumeration (all options) to length 3"
+    rep.bound = f"(1 + {N}) automata x 4 maps x 2 modes"
+    maps = {"swap_ab": {"a": "b", "b": "a", "A": "A", "B": "B"}, "swap_aA": {"a": "A", "A": "a", "b": "b", "B": "B"}, "cycle": {"a": "b", "b": "A", "A": "a", "B": "B"},
+            "fresh": {"a": "x", "b": "z", "A": "c", "B": "d"}}
+    cases = [{v: dict(nb) for v, nb in fsa.free_automaton(["a", "b"]).graph_dict.items()}]
+    for _ in range(N):
+        nv = int(rng.integers(2, 5))
+        d = {}
+        for v in range(nv):
+            d[v] = {l: int(rng.integers(0, nv)) for l in ["a", "b", "A"] if rng.random() < 0.75}
+        cases.append(d)
+    for t, d in enumerate(cases):
+        start = [next(iter(d))]
+        for mname, mp in maps.items():
+            for inplace in (True, False):
+                inp = {"graph_dict": {repr(k): {l: repr(w) for l, w in nb.items()} for k, nb in d.items()}, "relabelling": mname, "inplace": inplace}
+                dm = {v: {mp[l]: w for l, w in nb.items()} for v, nb in d.items()}
+                M = Model.from_graph_dict(dm)
+
+                def body():
+                    F = fsa.FSA(copy.deepcopy(d), list(start))
+                    G = F.rename_generators(mp, inplace=inplace)
+                    G = F if inplace or G is None else G
+                    labels = sorted({l for nb in dm.values() for l in nb}) or ["a"]
+                    R, mats = make_rep(labels)
+                    for L in range(0, 4):
+                        ms, ws = R.automaton_accepted(G, L, with_words=True)
+                        want = sorted("".join(w) for n in range(L + 1) for w, _ in M.paths(start[0], n))
+                        if sorted(ws) != want:
+                            rep.fail("returned_words_are_exactly_the_accepted_words", f"after {mname} ({'in place' if inplace else 'copy'}), length {L}: {sorted(ws)} vs {want}", {**inp, "length": L}); return
+                        own = sorted(G.enumerate_words(L, start_vertex=start[0]))
+                        if own != want:
+                            rep.fail("agrees_with_enumerate_words", f"after {mname} ({'in place' if inplace else 'copy'}), length {L}: the automaton's own enumeration {own} vs {want}", {**inp, "length": L}); return
+                        for w in ws:
+                            if not G.accepts(w, start_vertex=start[0]):
+                                rep.fail("returned_words_are_exactly_the_accepted_words", f"after {mname}: returned word {w!r} is rejected by the automaton itself", {**inp, "word": w}); return
+                        for Mx, w in zip(ms, ws):
+                            if not np.array_equal(np.asarray(Mx), image(mats, w)):
+                                rep.fail("matrix_is_image_of_its_word", f"after {mname}: {w!r}", {**inp, "word": w}); return
+                rep.attempt("enumeration_runs", inp, body)
+                rep.case(key=(t, mname, inplace), nontrivial=mname != "fresh", sample=inp if (t, mname, inplace) == (0, "swap_aA", True) else None)
+                if len(rep.failures) >= 3:
+                    return
